@@ -195,6 +195,17 @@ def check_case(case) -> Result:
             if single:
                 scale = max(float(np.max(np.abs(rfd1))), 1e-300)
                 res.check("C17/shift-invariant-recovery", float(np.max(np.abs(rfd1 - rfd2))), scale * (1e-6 + 4 * pert) + 1e-9, f"shift {case['shift']!r}: in-place recovery changes;")
+        # the same object simulated again after the caller shifted ITS OWN time array in place (t += shift; the object
+        # may hold a reference to that array): identical to the fresh object's run on the shifted grid
+        if np.issubdtype(np.asarray(time).dtype, np.floating):
+            r3 = flowcase.run(case, simulate=False)
+            t_buf = np.array(time, float, copy=True)
+            _simulate(r3, t_buf)
+            t_buf += case["shift"]
+            m3 = _simulate(r3, t_buf)
+            rf3 = np.asarray(lib("recovery_factor", r3.res.recovery_factor), float)
+            if m3.shape != m2.shape or not (np.array_equal(m3, m2) and np.array_equal(rf3, rf2)):
+                res.bad("C17/shift-invariant-field", f"re-simulating one object after its caller's time array was shifted in place by {case['shift']!r} does not give the result of a fresh object on the shifted grid (max field difference {float(np.max(np.abs(m3 - m2))) if m3.shape == m2.shape else 'shape'})")
         distinct = len(np.unique(dts))
         res.nontrivial = bool(case["shift"] != 0 and distinct >= 3)
         res.labels["exact_increments"] = exact
@@ -212,6 +223,15 @@ def check_case(case) -> Result:
             res.bad("C17/constant-schedule-equals-scalar", f"constant schedule p_f={r.p_f!r}: m[{n},{j}]={m2[n, j]!r} vs scalar setting {m1[n, j]!r}")
         rf2 = np.asarray(lib("recovery_factor", r2.res.recovery_factor), float)
         rfd2 = np.asarray(lib("recovery_factor(density)", r2.res.recovery_factor, density=True), float)
+        # ... also when the constant schedule is the caller's own array, first used with varying values and then
+        # overwritten in place (sched[:] = p_f) before the second simulate on the same object
+        r4 = flowcase.run(case, simulate=False)
+        sched_buf = np.linspace(r.p_f, 0.5 * (r.p_f + r.p_i), len(time))
+        _simulate(r4, time, sched_buf)
+        sched_buf[:] = r.p_f
+        m4 = _simulate(r4, time, sched_buf)
+        if not np.array_equal(m1, m4):
+            res.bad("C17/constant-schedule-equals-scalar", f"a schedule array overwritten in place with the constant p_f={r.p_f!r} and simulated again on the same object does not give the scalar setting's field (max difference {float(np.max(np.abs(m1 - m4)))!r})")
         if not (np.array_equal(rf1, rf2) and np.array_equal(rfd1, rfd2)):
             res.bad("C17/constant-schedule-equals-scalar", "recovery differs between a constant schedule and the scalar setting")
         res.nontrivial = True
